@@ -15,6 +15,31 @@ import (
 
 func (s *Sim) checkCommitted(b *blockObs, v *View, d *Dump) {
 	h := v.Height
+	// C24 (own record, kept from the first block on): since when each node record and each
+	// waiting-to-unstake entry exists
+	if s.nodeSince == nil {
+		s.nodeSince, s.waitingSince = map[string]int64{}, map[string]int64{}
+	}
+	for a := range s.nodeSince {
+		if _, ok := v.Validators[a]; !ok {
+			delete(s.nodeSince, a)
+		}
+	}
+	for a := range v.Validators {
+		if _, ok := s.nodeSince[a]; !ok {
+			s.nodeSince[a] = h
+		}
+	}
+	for a := range s.waitingSince {
+		if !v.Waiting[a] {
+			delete(s.waitingSince, a)
+		}
+	}
+	for a := range v.Waiting {
+		if _, ok := s.waitingSince[a]; !ok {
+			s.waitingSince[a] = h
+		}
+	}
 	if h <= s.cfg.UpgradeHeight {
 		return
 	}
